@@ -1,3 +1,3 @@
 SPECIFICATION GenSpec
-CONSTANTS MaxLen = 100  Delays = {100, 700, 3000}
+CONSTANTS MaxLen = 100  Delays = {0, 100, 700, 3000}
 CHECK_DEADLOCK FALSE
